@@ -800,6 +800,9 @@ def mon_C18(stream, case, obs):
         if any(e.startswith("on_message") for e in st["evs"]) and scripted_raise > 0 and excs:
             scripted_raise -= 1
             continue
+        if nested and excs and t[0] in ("connect", "reconnect") and len(t) > 1 and t[1] == "refuse" \
+                and excs[0] in ("exc:ConnectionRefusedError", "exc:OSError"):
+            continue        # connect()/reconnect() raise what the socket layer raised: not caused by the call in on_pre_connect
         if nested and excs:
             hits.append((i, "nested-call-exception", f"{' '.join(t[:3])}: {excs[0]} left the network loop after the application called {nested[0].split(':')[0][2:]}() inside a callback"))
     return hits
